@@ -775,7 +775,7 @@ class CountControlConstructionToken(CompositeBaseToken):
         return [
             expression.left_operand.value[0]
             for expression in self.value[2].expressions
-            if isinstance(expression.left_operand.value[0], CellIdentifierToken)
+            if expression.left_operand is not None and isinstance(expression.left_operand.value[0], CellIdentifierToken)
         ]
 
     @property
@@ -783,7 +783,8 @@ class CountControlConstructionToken(CompositeBaseToken):
         return [
             expression
             for expression in self.value[2].expressions
-            if isinstance(expression.left_operand.value[0], LiteralToken)
+            # a signed argument (-2) or a bracketed one has no left operand of its own: it is a scalar expression too
+            if expression.left_operand is None or isinstance(expression.left_operand.value[0], LiteralToken)
         ]
 
 
